@@ -164,6 +164,11 @@ def classify(fx, eng, fid, L, all_loops, iof):
                 readers.append(b)
     consuming = bool(readers)
     nb, nt = LP.driver_next_call(body, L, all_loops)
+    if nt is not None and not consuming:
+        # `for x in iter.map(|..| { reads })`: the reads happen in the closure, once per iteration
+        mc = LP.mapped_closure(fx, fid, nt["callee"].get("full"))
+        if mc is not None and LP.must_read(fx, mc):
+            consuming = True
     hdr = [b for b, t in LP.calls_in(body, own) if is_header_read(t) and all(body.dominates(b, la) for la in L.latches)]
     if hdr:
         return "BOXWALK", {"header_block": hdr[0], "consuming": True, "for_range": nt is not None}
@@ -300,6 +305,44 @@ def loop_iter_local(body, L, all_loops):
         else:
             break
     return l
+
+
+VIEW_CALLS = ("len", "iter", "iter_mut", "into_iter", "deref", "deref_mut", "as_slice", "as_mut_slice", "as_ref", "as_mut", "enumerate", "rev", "zip", "skip", "take",
+              "chunks", "windows", "by_ref", "peekable", "map", "filter", "cloned", "copied", "borrow", "values", "keys", "first", "last", "get", "index")
+
+
+def rooted_at_param(body, local):
+    """does the collection behind an iterator / range bound live in a parameter (self.field, a borrowed argument), as opposed
+    to a collection this function created?  Follows copies, borrows, range literals and view-like calls (len, iter, ...) only."""
+    seen, stack = set(), [local]
+    while stack:
+        x = stack.pop()
+        if x in seen:
+            continue
+        seen.add(x)
+        if 1 <= x <= body.argc:
+            return True
+        for (b, i, kind, payload) in body.defs().get(x, []):
+            ops = []
+            if kind == "assign":
+                rv = payload
+                if rv["k"] in ("use", "cast", "un"):
+                    ops = [rv["a"]]
+                elif rv["k"] == "bin":
+                    ops = [rv["a"], rv["b"]]
+                elif rv["k"] == "agg":
+                    ops = rv["ops"]
+                elif rv["k"] in ("ref", "rawptr", "discr", "len"):
+                    stack.append(rv["place"]["l"])
+            elif kind == "call":
+                nm = strip_generics(payload["callee"].get("path") or "").split("::")[-1]
+                if nm in VIEW_CALLS and payload["args"]:
+                    ops = [payload["args"][0]] + (payload["args"][1:] if nm == "zip" else [])
+            for o in ops:
+                pl = op_place(o)
+                if pl is not None:
+                    stack.append(pl["l"])
+    return False
 
 
 def fixed_array_len(body, local, depth=0):
@@ -443,7 +486,16 @@ def run(fx, chk, tier):
     for fid in order:
         body = body_of(fx.fns[fid])
         ls = fn_loops.get(fid, [])
-        best = 1 if any(L.kind in MEM for L in ls) else 0
+        def over_own_local(L_):
+            """the loop walks a collection this function created itself (its length is bounded by what this call consumed or
+            allocated, which the allocation and read rules bound by the bytes of its box), not one reachable from a parameter"""
+            if body is None:
+                return False
+            root = loop_iter_local(body, L_, ls)
+            if root is None:
+                return False
+            return not rooted_at_param(body, root)
+        best = 1 if any(L.kind in MEM and not over_own_local(L) for L in ls) else 0
         if body is not None and not best:
             for b, t in body.calls():
                 p = callee_path(t["callee"])
